@@ -286,6 +286,10 @@ def conv1d(
     constraint: Optional[str] = "to_output_scale",
     scale_power: Tuple[float, float, float] = (0.5, 0.5, 0.5),
 ) -> Tensor:
+    # `F.conv1d` also takes 1-tuples (`torch.nn.Conv1d` always passes them)
+    stride, padding, dilation = (
+        v[0] if isinstance(v, (tuple, list)) else v for v in (stride, padding, dilation)
+    )
     fan_out, fan_in, kernel_size = weight.shape
     seq_len = input.shape[-1]
     out_size = (seq_len + 2 * padding - dilation * (kernel_size - 1) - 1) // stride + 1
